@@ -63,6 +63,8 @@ def catalogue():
     C['marker'] = enc_tcp(1, b'\x33', body=b'\xb1a\xff')                           # payload marker without payload: dropped
     C['release'] = enc_tcp(0xe4)
     C['abort'] = enc_tcp(0xe5)
+    C['release_holdoff'] = enc_tcp(0xe4, b'', [(4, b'\x05')])                      # 7.04 with Hold-Off: completes through the partial-PDU path
+    C['abort_diag'] = enc_tcp(0xe5, b'\x21', [(2, b'\x00\x02')], b'bye')            # 7.05 with Bad-CSM-Option and a diagnostic payload
     return C
 
 
@@ -86,7 +88,7 @@ def gen(tier, rnd):
     def lit(parts):
         return ['S ' + b''.join(parts).hex()]
     small = [['get0'], ['get8', 'ping'], ['put12', 'put13'], ['tok13', 'get0'], ['ping', 'empty', 'get0'], ['badopt', 'get0'], ['resp', 'pong', 'get8'],
-             ['csm2', 'tok20'], ['marker', 'badlen', 'ping0'], ['get0', 'release', 'get8'], ['get0', 'abort', 'ping'], ['put13', 'get0', 'get8', 'ping']]
+             ['csm2', 'tok20'], ['marker', 'badlen', 'ping0'], ['get0', 'release', 'get8'], ['get0', 'abort', 'ping'], ['get8', 'release_holdoff', 'get0'], ['ping', 'abort_diag', 'get0'], ['put13', 'get0', 'get8', 'ping']]
     for names in small:
         parts = [CSM] + [C[n] for n in names]
         n = sum(len(p) for p in parts)
@@ -144,7 +146,7 @@ def gen(tier, rnd):
     case(sl, [], 1500)
     case(sl, [3, 700, 1, 1], 1500)
     # random streams and random cuts
-    names = [k for k in C if k not in ('release', 'abort')]
+    names = [k for k in C if k not in ('release', 'abort', 'release_holdoff', 'abort_diag')]
     for _ in range(600 if tier == 'quick' else 30000):
         parts = [CSM] + [C[rnd.choice(names)] for _k in range(rnd.randint(1, 6))]
         n = sum(len(p) for p in parts)
